@@ -350,9 +350,10 @@ impl Value {
     }
 
     pub fn from_float(f: f64) -> Value {
-        let rounded = f as i64;
-        if (f - f.floor()).abs() < f64::EPSILON {
-            Value::Int(rounded)
+        // 2^63 as f64; integral floats outside the i64 range must stay floats
+        const I64_LIMIT: f64 = 9_223_372_036_854_775_808.0;
+        if f.fract() == 0.0 && f >= -I64_LIMIT && f < I64_LIMIT {
+            Value::Int(f as i64)
         } else {
             Value::Float(OrderedFloat(f))
         }
